@@ -55,7 +55,7 @@ def recase(s, rng):
 # k a constant, a an annotation; l Latin-1 bytes (not valid UTF-8) in a comment, m a byte order mark, r CRLF line ends;
 # where the file is (wsutil::materialise): s two directories below the root, g extension written `.GOD`.
 # None of them changes what the file DECLARES: the model (and the declared relation) ignore them.
-DRESS = "bckalmrsg"
+DRESS = "bckalmrs"      # (`g`, extension `.GOD`, is not generated: C19 reads `*.god` literally — such a file is not a Gold file)
 
 
 def dress(rng):
@@ -278,7 +278,7 @@ def run(ctx):
         "harness/src/modes/tree.rs + wsutil.rs (real DocumentService/EntityTreeService/ThreadPool/ProjectManager on materialised workspaces; serialised scheduler over the yield point and the pool's own log lines), lean_exe compilation of the driver",
     ]
     ctx.assumptions += [
-        "file stem = class name (class_uri_map is keyed by the stem); at most one class per file; what stands above the header (blank lines, comments, a constant, an annotation), the encoding of the file (Latin-1 bytes, byte order mark, CRLF), its directory and the letter case of its extension do not change what it declares: the model and the declared relation ignore these flags, a file without class header declares no class",
+        "file stem = class name (class_uri_map is keyed by the stem); at most one class per file; what stands above the header (blank lines, comments, a constant, an annotation), the encoding of the file (Latin-1 bytes, byte order mark, CRLF), its directory do not change what it declares: the model and the declared relation ignore these flags, a file without class header declares no class",
         "member walks: the model takes fuel; the theorems are for all sufficiently large fuel (termination included), wall-clock is not modelled",
         "forced schedules hand over only at the yield point between lookup and insert and at chunk boundaries (coarser than the model's atomic steps); finer interleavings are covered by the theorem and sampled by the free-running 7-worker runs",
     ]
@@ -340,7 +340,7 @@ def run(ctx):
 
 
 RULE = ("cases = corpus + (deterministic) every dressing of a class file — blank lines, a comment, a constant, an annotation above the header; Latin-1 bytes "
-        "that are not valid UTF-8, a byte order mark, CRLF line ends; the file in a sub-directory, its extension written .GOD — alone, in pairs and all at once on "
+        "that are not valid UTF-8, a byte order mark, CRLF line ends; the file in a sub-directory — alone, in pairs and all at once on "
         "every position of a four-class forest, and a file without class header on every position; the same dressings on one file in three of all other cases, "
         "files without class header in the random families; + every forest on 1..4 classes (random member sets and letter case of parent references) x chunk size 1..n x every "
         "binary choice list up to length 6 (quick) / 8 (thorough) for the serialised 2-worker scheduler, each under a random requested enumeration order; "
